@@ -2,6 +2,7 @@
 import itertools
 import math
 import os
+import random
 
 from lib import build, cli
 
@@ -179,7 +180,18 @@ def run(chk):
 
                 def one(c, text=text, fmt=fmt, idx=idx):
                     o, l, rs, fo, ve, un, ru = c
-                    t = text + cli.config_block(o, l, rs, fo, ve, un, ru)
+                    # the configuration block in three shapes: all seven entries in ascending order, in another order, and with the entries left out that equal
+                    # their documented defaults (loop order 2, resummation 1, force 0, verbose 0, uncertainty 0, running couplings 1)
+                    cl = cli.config_block(o, l, rs, fo, ve, un, ru).rstrip("\n").split("\n")
+                    shape = (o + 2 * l + 3 * rs + 5 * fo + 7 * ve + 11 * un + 13 * ru + idx) % 3
+                    if shape == 1:
+                        body = cl[1:]
+                        random.Random(hash((idx,) + tuple(c))).shuffle(body)
+                        cl = [cl[0]] + body
+                    elif shape == 2:
+                        dflt = {1: 2, 2: 1, 3: 0, 4: 0, 5: 0, 6: 1}
+                        cl = [cl[0]] + [x for x in cl[1:] if dflt.get(int(x.split()[0])) != int(x.split()[1])]
+                    t = text + "\n".join(cl) + "\n"
                     name = "%s_%d_%d%d%d%d%d%d%d.in" % (fmt, idx, o, l, rs, fo, ve, un, ru)
                     r = cli.run_cli(binary, fmt, t, workdir=chk.workdir, name=name)
                     try:
